@@ -213,6 +213,7 @@ def main(run):
     _mesh_lookup(run, rng, thorough, lines, meta, allrel)
     _grid_order(run, rng, thorough, lines, meta)
     _object_reuse(run, rng, thorough, lines, meta)
+    _large_dos(run, rng, thorough)
 
     # ------------------------------------------------------------------ compare with the models
     if not translated:
@@ -469,8 +470,9 @@ def _anisotropic(run, rng, thorough, lines, meta, allrel):
             tab = seen.get(who)
             which["TotalDos" if who == "total" else "ProjectedDos"] = None if tab is None else next((d for d in range(4) if (allrel[d] == tab).all()), None)
         if "total" in seen and "projected" in seen and not (seen["total"] == seen["projected"]).all():
-            run.violation("ProjectedDos._run_tetrahedron_method_dos", "main-diagonal-differs-from-total-dos",
-                          "TotalDos and ProjectedDos hand different relative grid addresses (main diagonals %s) to the kernel" % which, info)
+            # internal call arguments: an observation about the code (the end effect, PDOS sum != total DOS, is the
+            # violation above; the comparison with the model's diagonal below is the correspondence)
+            run.count("observed: TotalDos and ProjectedDos hand different relative grid addresses to the kernel", section="correspondence")
         reclat = np.linalg.inv(np.array(ph.primitive.cell))
         lines.append("diag %s %d %d %d" % (_rats(reclat), mesh[0], mesh[1], mesh[2]))
         meta.append(("diag", info, which))
@@ -618,7 +620,7 @@ def _grid_order(run, rng, thorough, lines, meta):
         m = ph.mesh
         fr = np.array(m.frequencies)
         fmin, fmax = float(fr.min()), float(fr.max())
-        nfp = 41
+        nfp = rng.choice([11, 41, 301])
         asc = np.linspace(fmin - 0.3, fmax + 0.3, nfp)
         perm = list(range(nfp))
         rng.shuffle(perm)
@@ -649,9 +651,11 @@ def _grid_order(run, rng, thorough, lines, meta):
             if coef is None:
                 td = TotalDos(m, use_tetrahedron_method=True)
                 td._openmp_thm = False
-                td._frequency_points = np.array(asc[::-1], dtype="double")
+                td.set_draw_area(freq_min=float(asc[-1]), freq_max=float(asc[0]), freq_pitch=-float(asc[1] - asc[0]))
                 td.run()
-                err = float(np.abs(np.array(td.dos)[::-1] - ref).max())
+                fdesc = np.array(td.frequency_points, dtype="double")
+                refd = np.array(run_tetrahedron_method_dos(m.mesh_numbers, np.sort(fdesc), fr, m.grid_address, m.grid_mapping_table, tm.tetrahedra))
+                err = float(np.abs(np.array(td.dos)[np.argsort(fdesc)] - refd).max()) if len(fdesc) > 2 and (np.diff(fdesc) < 0).all() else float("inf")
                 run.count("oracle-dos-grid-order-python-route", section="oracle")
                 if err > 1e-9 * max(1.0, float(np.abs(ref).max())):
                     run.violation("TotalDos.run", "kernel-ne-tetrahedron-mesh-descending-grid",
@@ -758,6 +762,60 @@ def _object_reuse(run, rng, thorough, lines, meta):
                 run.violation(cls.__name__ + ".run", "rerun-ne-fresh-object", "second run after set_draw_area differs from a fresh object", dict(cell=name, mesh=list(mesh)))
 
 
+def _large_dos(run, rng, thorough):
+    """SIZE: (grid points x bands x coefficients x frequency points) of a few 10^7: total DOS and xyz-projected DOS on a fine
+    frequency grid; sum of PDOS = total DOS pointwise, normalisation, and equality with the same DOS evaluated in small
+    batches of frequency points."""
+    from phonopy.phonon.dos import run_tetrahedron_method_dos
+    from phonopy.structure.tetrahedron_method import TetrahedronMethod
+
+    configs = [("triclinic", [6, 6, 6], 4200), ("triclinic", [8, 8, 8], 2050), ("triclinic", [7, 6, 8], 2600)]
+    if thorough:
+        configs += [("rutile", [5, 5, 6], 2300), ("triclinic", [4, 4, 4], 11000)]
+    for name, mesh, nfp in (configs if thorough else [rng.choice(configs[:3])]):
+        cell, cen = gen.make_cell(name)
+        ph = gen.make_phonopy(cell, np.diag([2, 2, 2]) if len(cell) <= 3 else np.diag([2, 2, 1]), pmat="P")
+        ph.force_constants = gen.pair_fc(ph.supercell, min(0.9 * gen.min_lattice_vector(ph.supercell.cell), 5.0))
+        ph.run_mesh(mesh, with_eigenvectors=True, is_mesh_symmetry=False)
+        m = ph.mesh
+        fr = np.array(m.frequencies)
+        nb = fr.shape[1]
+        fmin, fmax = float(fr.min()), float(fr.max())
+        nfp = nfp + rng.randint(0, 60)
+        pitch = (fmax - fmin + 0.4) / (nfp - 1)
+        kw = dict(freq_min=fmin - 0.2, freq_max=fmax + 0.2, freq_pitch=pitch, use_tetrahedron_method=True)
+        ph.run_total_dos(**kw)
+        td = ph.get_total_dos_dict()
+        ph.run_projected_dos(xyz_projection=True, **kw)
+        pdd = ph.get_projected_dos_dict()
+        fp, tot, pd = np.array(td["frequency_points"]), np.array(td["total_dos"]), np.array(pdd["projected_dos"])
+        size = fr.size * nb * len(fp)
+        info = dict(cell=name, mesh=mesh, n_frequency_points=int(len(fp)), bands=int(nb), products=int(size), force_constants="gen.pair_fc")
+        run.case(("large-dos", name, tuple(mesh), len(fp)), nontrivial=size > 2 ** 25)
+        run.count("large DOS: products 10^%d" % int(np.log10(size)))
+        scale = max(1.0, float(np.abs(tot).max()))
+        if pd.shape != (nb, len(fp)) or np.abs(pd.sum(axis=0) - tot).max() > 1e-9 * scale:
+            run.violation("Phonopy.run_projected_dos", "xyz-pdos-sum-ne-total-tetrahedron-large",
+                          "sum over the 3N Cartesian projections differs from the total DOS by %.3g on %d frequency points (%d products)"
+                          % (float(np.abs(pd.sum(axis=0) - tot).max()) if pd.shape == (nb, len(fp)) else -1.0, len(fp), size), info)
+        integ = float(np.sum((tot[1:] + tot[:-1]) / 2 * np.diff(fp)))
+        if (tot < -1e-10).any() or (pd < -1e-10).any() or abs(integ - nb) > 0.02 * nb:
+            run.violation("Phonopy.run_total_dos", "dos-normalisation-tetrahedron-large", "integrated total DOS %.5f, bands %d (fine grid, %d points)" % (integ, nb, len(fp)), info)
+        # the same values from small batches of frequency points
+        tm = TetrahedronMethod(np.linalg.inv(ph.primitive.cell), mesh=m.mesh_numbers)
+        ev2 = np.abs(np.array(m.eigenvectors)) ** 2
+        worst = 0.0
+        for _ in range(4):
+            idx = np.array(sorted(rng.sample(range(len(fp)), 40)))
+            dp = np.array(run_tetrahedron_method_dos(m.mesh_numbers, fp[idx], fr, m.grid_address, m.grid_mapping_table, tm.tetrahedra, coef=ev2))
+            dt = np.array(run_tetrahedron_method_dos(m.mesh_numbers, fp[idx], fr, m.grid_address, m.grid_mapping_table, tm.tetrahedra))
+            worst = max(worst, float(np.abs(dp.T - pd[:, idx]).max()), float(np.abs(dt - tot[idx]).max()))
+        run.count("oracle-large-dos", section="oracle")
+        if worst > 1e-9 * scale:
+            run.violation("Phonopy.run_projected_dos", "dos-depends-on-number-of-frequency-points",
+                          "DOS on the fine grid differs from the same frequencies evaluated in batches of 40 points by %.3g" % worst, info)
+
+
 def _end_to_end(run, rng, thorough):
     names = ["cscl", "nacl_prim", "zincblende_prim", "hcp", "bct", "rhombo", "mono_P"]
     n = 30 if thorough else 2
@@ -783,7 +841,8 @@ def _end_to_end(run, rng, thorough):
         run.count("hypothesis-eigenvector-normalisation", section="oracle")
         for method in ("tetrahedron", "smearing"):
             kw = dict(use_tetrahedron_method=True) if method == "tetrahedron" else dict(sigma=0.12, use_tetrahedron_method=False)
-            pitch = (fmax - fmin + 2.0) / 600
+            npts = rng.choice([25, 600, 1800])  # sizes over orders of magnitude
+            pitch = (fmax - fmin + 2.0) / npts
             ph.run_total_dos(freq_min=fmin - 1.0, freq_max=fmax + 1.0, freq_pitch=pitch, **kw)
             td = ph.get_total_dos_dict()
             ph.run_projected_dos(freq_min=fmin - 1.0, freq_max=fmax + 1.0, freq_pitch=pitch, **kw)
@@ -820,7 +879,7 @@ def _end_to_end(run, rng, thorough):
             integ = float(np.sum((tot[1:] + tot[:-1]) / 2 * np.diff(np.array(td["frequency_points"]))))
             # (a flat tetrahedron is a delta peak the density misses: for the tetrahedron method the normalisation is the
             #  statement about the cumulative weights checked below, the quadrature check applies to smearing only)
-            if method == "smearing" and abs(integ - nb) > 0.02 * nb:
+            if method == "smearing" and npts >= 600 and abs(integ - nb) > 0.02 * nb:
                 run.violation("Phonopy.run_total_dos", "dos-normalisation-" + method, "integrated DOS %.4f, number of bands %d" % (integ, nb), info)
             run.count("oracle-e2e-%s" % method, section="oracle")
         # exact normalisation: cumulative tetrahedron weights above the spectrum
